@@ -141,7 +141,7 @@ def render_header(rng, flags, style):
     return pre + "%grmtools" + lb + body + rb + post
 
 
-def render(rng, states, rules, flags, header_style, comments=None, closing=None, weird_seps=True):
+def render(rng, states, rules, flags, header_style, comments=None, closing=None, weird_seps=True, multi_blank=False):
     """returns (text, exp) with exp = expected observations of the abstract spec"""
     awc = flags.get("awc", False)
     if comments is None:
@@ -166,8 +166,9 @@ def render(rng, states, rules, flags, header_style, comments=None, closing=None,
             j += 1
         kw = "%" + rng.choice(["x", "X", "xstate", "X9"] if excl else ["s", "S", "start", "Sx"])
         line = kw
-        for (n, _) in states[i:j]:
-            line += rng.choice([" ", "  ", "\t", " \t "]) + n
+        for k, (n, _) in enumerate(states[i:j]):
+            # RE_WS.split: names are separated by exactly one blank unless multi_blank is asked for
+            line += rng.choice([" ", "  ", "\t", " \t "] if (k == 0 or multi_blank) else [" ", "\t"]) + n
         line += rng.choice(["", "", " ", "\t"])
         out.append(line + nl())
         comment()
